@@ -20,15 +20,17 @@ EXTENDS Naturals, Integers, Sequences, FiniteSets, TLC, Json, IOUtils
 
 Doc == JsonDeserialize(IOEnv.CASEFILE)
 MaxKeys == 64
-TraceKeys == [id : 1..MaxKeys, wild : BOOLEAN]
+DomLabels == {"closed", ""} \cup UNION {{Doc.traces[i].dups0[j].kdom : j \in 1..Len(Doc.traces[i].dups0)} : i \in 1..Len(Doc.traces)}
+TraceKeys == [id : 1..MaxKeys, wild : BOOLEAN, dom : DomLabels]
+TraceKeyDom(k) == k.dom
 TraceWild == {k \in TraceKeys : k.wild}
 
-VARIABLES duplicates, cache, stack, hits, saved, t, l
-C == INSTANCE Cache WITH Keys <- TraceKeys, Wild <- TraceWild
-tvars == <<duplicates, cache, stack, hits, saved, t, l>>
+VARIABLES duplicates, cache, stack, scopes, hits, saved, savedUnder, t, l
+C == INSTANCE Cache WITH Keys <- TraceKeys, Wild <- TraceWild, KeyDom <- TraceKeyDom
+tvars == <<duplicates, cache, stack, scopes, hits, saved, savedUnder, t, l>>
 
 T == Doc.traces[t]
-K(tr, i) == [id |-> i, wild |-> tr.dups0[i].wild]
+K(tr, i) == [id |-> i, wild |-> tr.dups0[i].wild, dom |-> tr.dups0[i].kdom]
 D0(tr) == [k \in {K(tr, i) : i \in 1..Len(tr.dups0)} |-> tr.dups0[k.id].n]
 C0(tr) == {K(tr, i) : i \in {j \in 1..Len(tr.dups0) : tr.dups0[j].cached}}
 Cand(form) == {K(T, i) : i \in {j \in 1..Len(T.dups0) : T.dups0[j].form = form}}
@@ -46,23 +48,26 @@ TSave == IsEv("save") /\ \E k \in Cand(Ev.key) : C!Save(k)
 (* the two shortcuts that return without storing (Cache.Shortcut):                                           *)
 (*  - a "fixed-point" pattern event directly after a saving miss of the steady-state pattern itself (the     *)
 (*    canonical text of the key says so; otherwise the event belongs to an unmarked child)                   *)
-(*  - an "empty" event after miss, open: the quantifier that missed has an empty domain                      *)
+(*  - an "empty" event after miss, open, where the key that missed denotes a quantifier node (`quant`,       *)
+(*    derived from the key text by the driver): the quantifier that missed has an empty domain               *)
 SteadyText == "(!{var0}: (AX {var0}))"
 AfterSavingMiss == /\ l > 1 /\ T.steps[l - 1].e = "miss" /\ T.steps[l - 1].save /\ T.steps[l - 1].key = SteadyText
                    /\ Ev.kind = "fixed-point"
 TPattern == IsEv("pattern") /\ AfterSavingMiss /\ \E k \in Cand(T.steps[l - 1].key) : C!Shortcut(k)
-AfterSavingMissOpen == l > 2 /\ T.steps[l - 1].e = "open" /\ T.steps[l - 2].e = "miss" /\ T.steps[l - 2].save
+AfterSavingMissOpen == l > 2 /\ T.steps[l - 1].e = "open" /\ T.steps[l - 2].e = "miss" /\ T.steps[l - 2].save /\ T.steps[l - 2].quant
 TEmpty == IsEv("empty") /\ AfterSavingMissOpen /\ \E k \in Cand(T.steps[l - 2].key) : C!Shortcut(k)
-TOther == /\ l <= Len(T.steps) /\ Ev.e \in {"pattern", "open", "empty", "close", "ret"}
+TOpen  == IsEv("open")  /\ C!Open(Ev.var, Ev.dom)
+TClose == IsEv("close") /\ C!Close(Ev.var)
+TOther == /\ l <= Len(T.steps) /\ Ev.e \in {"pattern", "empty", "ret"}
           /\ (Ev.e = "pattern" => ~AfterSavingMiss) /\ (Ev.e = "empty" => ~AfterSavingMissOpen)
-          /\ l' = l + 1 /\ UNCHANGED <<duplicates, cache, stack, hits, saved, t>>
-Next == THit \/ TMiss \/ TSave \/ TPattern \/ TEmpty \/ TOther
+          /\ l' = l + 1 /\ UNCHANGED <<duplicates, cache, stack, scopes, hits, saved, savedUnder, t>>
+Next == THit \/ TMiss \/ TSave \/ TPattern \/ TEmpty \/ TOpen \/ TClose \/ TOther
 
 (* the design's invariants, in every state of every behaviour that explains a prefix of the trace *)
 Inv == /\ C!CacheWithinMarked /\ C!CountersPositive /\ C!FetchBound(D0(T)) /\ C!WildKept(C0(T))
-       /\ C!CachedWasSaved(C0(T)) /\ C!StackDistinct
+       /\ C!CachedWasSaved(C0(T)) /\ C!StackDistinct /\ C!StoredValuesPortable
 (* acceptance: the whole trace was consumed, and nothing that was going to be stored is left pending *)
-Accepted == l = Len(T.steps) + 1 /\ stack = <<>>
+Accepted == l = Len(T.steps) + 1 /\ stack = <<>> /\ scopes = <<>>
 Verdict == Accepted => PrintT(<<"VERDICT", T.id, <<"T">>>>)
 Reached == PrintT(<<"REACHED", T.id, l>>)
 =============================================================================
